@@ -374,6 +374,16 @@ def check_assembly(ctx, case, pool, objs, motors, kv):
                 pass
             except Exception as ex:  # noqa: BLE001
                 ctx.violation(case, {'why': f'assigning Powertrain.{attr} raised {type(ex).__name__} instead of AttributeError'})
+        # neither does any public method: reset (here on a powertrain that has not been simulated; the simulated
+        # case is exercised by `simulated_cases`)
+        before = (tuple(id(e) for e in pt.elements), pt.self_locking)
+        try:
+            pt.reset()
+        except Exception:  # noqa: BLE001
+            pass
+        if (tuple(id(e) for e in pt.elements), pt.self_locking) != before:
+            ctx.violation(case, {'why': f'Powertrain.reset changed the elements or the self-locking flag ({before[1]} -> {pt.self_locking})'})
+            continue
         # a later declaration re-routing the chain does not change the assembled powertrain
         before = (tuple(id(e) for e in pt.elements), pt.self_locking)
         extra = Flywheel(name='late', inertia_moment=J)
@@ -515,8 +525,29 @@ def run_C10(ctx):
     run_props(ctx, ['C10'])
 
 
+def simulated_cases(ctx, n):
+    """C20 on powertrains that are then used: after runs, early stops, resets and reruns the element tuple and the
+    self-locking flag are what they were at construction"""
+    from harness import sim, sim_props
+    sim_props.prep()
+    for _ in range(n):
+        spec = sim_props.dynamics_spec(ctx.rng, ctx, sl_bias=0.5, kind=ctx.rng.choice(['reset', 'reset', 'split', 'stop']))
+        tr, b = sim.simulate(spec)
+        case = {'t': 'sim', 'spec': spec}
+        if tr['build_error']:
+            ctx.count('simulated: build rejected')
+            continue
+        ctx.case_done(case, nontrivial=True)
+        ctx.count('simulated ' + '+'.join(op['op'] for op in spec['ops']) + (' self-locking' if tr['sl_at_build'] else ''))
+        if tr['sl'] != tr['sl_at_build']:
+            ctx.violation(case, {'why': f"self_locking was {tr['sl_at_build']} at construction and is {tr['sl']} after the schedule"})
+        elif tr['ids'] != tr['ids_at_build']:
+            ctx.violation(case, {'why': 'the element tuple changed during the schedule'})
+
+
 def run_C20(ctx):
     run_props(ctx, ['C20'])
+    simulated_cases(ctx, ctx.budget(25, 400))
 
 
 def replay_C10(ctx, case):
@@ -524,4 +555,11 @@ def replay_C10(ctx, case):
 
 
 def replay_C20(ctx, case):
+    if case.get('t') == 'sim':
+        from harness import sim, sim_props
+        sim_props.prep()
+        tr, b = sim.simulate(case['spec'])
+        if not tr['build_error'] and (tr['sl'] != tr['sl_at_build'] or tr['ids'] != tr['ids_at_build']):
+            ctx.violation(case, {'why': f"self_locking / elements changed during the schedule ({tr['sl_at_build']} -> {tr['sl']})"})
+        return
     eval_case(ctx, case, ['C20'])
